@@ -74,7 +74,7 @@ func (c *Ctx) c07Effect() error {
 		{goat.VerifInstr{Code: "LEN"}, []goat.Value{sl()}}, {goat.VerifInstr{Code: "MAKE", A: 23}, []goat.Value{i(2)}},
 		{goat.VerifInstr{Code: "GET"}, []goat.Value{sl(), i(1)}}, {goat.VerifInstr{Code: "GETOK"}, []goat.Value{mp(), i(1)}},
 		{goat.VerifInstr{Code: "SET"}, []goat.Value{i(9), sl(), i(1)}}, {goat.VerifInstr{Code: "DELETE"}, []goat.Value{mp(), i(1)}},
-		{goat.VerifInstr{Code: "SLICE"}, []goat.Value{sl(), i(0), i(2)}}, {goat.VerifInstr{Code: "COPY"}, []goat.Value{sl(), sl()}}, {goat.VerifInstr{Code: "COPY", C: 1}, []goat.Value{sl(), sl()}},
+		{goat.VerifInstr{Code: "SLICE"}, []goat.Value{sl(), i(0), i(2)}}, {goat.VerifInstr{Code: "COPY"}, []goat.Value{sl(), sl()}}, {goat.VerifInstr{Code: "COPY", C: 1}, []goat.Value{sl(), sl()}}, {goat.VerifInstr{Code: "COPY", C: -1}, []goat.Value{sl(), sl()}}, // (C = -1: the operand of a return)
 		{goat.VerifInstr{Code: "APPEND", A: 3}, []goat.Value{sl(), i(4), i(5)}}, {goat.VerifInstr{Code: "NEWSLICE", A: 23, B: 2}, []goat.Value{i(4), i(5)}},
 		{goat.VerifInstr{Code: "NEWMAP", A: 23, B: 23, C: 2}, []goat.Value{i(4), i(5)}},
 		{goat.VerifInstr{Code: "FASTGETINT", A: 2, B: 1}, nil}, {goat.VerifInstr{Code: "FASTSETINT", A: 2, B: 1}, []goat.Value{i(4)}},
